@@ -18,7 +18,7 @@ for m in MUTANTS:
         s = open(p).read()
         assert s.count(m['old']) == 1, (m['id'], s.count(m['old']))
         open(p, 'w').write(s.replace(m['old'], m['new']))
-        env = dict(os.environ, VERIF_REPO=d)
+        env = dict(os.environ, VERIF_REPO=d, VERIF_OUT_DIR=os.path.join(d, 'out'))
         r = subprocess.run(['./check', m['property'], '--no-falsify'], cwd=VERIF, env=env, capture_output=True, text=True)
         failed = [l.strip() for l in r.stdout.splitlines() if 'failed obligation' in l or l.startswith('UNDECIDED')]
         killed = r.returncode in (1, 2) and bool(failed)
